@@ -1,6 +1,7 @@
 mod codec;
 mod ctl;
 mod sys;
+mod twin;
 mod j;
 mod page;
 mod serial;
@@ -38,6 +39,7 @@ fn main() {
         ("record", "C16") => serial::record_c16(&a),
         ("record", "C18") => serial::record_c18(&a),
         ("record", "C20") => serial::record_c20(&a),
+        ("record", "C17") => twin::record_c17(&a),
         ("record", "C08") => sys::record_c08(&a),
         ("record", "C09") => ctl::record_c09(&a),
         ("record", "C10") => ctl::record_c10(&a),
